@@ -132,7 +132,7 @@ def rho_case(draw):
 
 
 def prop_case(case):
-    N = len(case['gc']['nodes'])
+    N = simrun.population(case)
     fails = []
     classes = [case['sim']]
     nontrivial = False
@@ -149,11 +149,11 @@ def prop_case(case):
             fails.append(Failure('%s:%s:exception:%s' % (case['sim'], mode, exc_signature(e)), '%s mode raised %r' % (mode, e)))
             continue
         fails += check_series(case, t, D, mode, N)
-        if full and N >= 2 and not fails:
+        if full and len(case['gc']['nodes']) >= 2 and not fails and not case.get('bystanders'):
             # the population series read again after the same object was asked about a sub-population
             try:
                 nodes_ = [oracles.tolabel(u) for u in case['gc']['nodes']]
-                out.summary(nodelist=nodes_[:max(1, N // 2)])
+                out.summary(nodelist=nodes_[:max(1, len(nodes_) // 2)])
                 t2, D2 = simrun.as_series(case, out, True)
                 fails += check_series(case, t2, D2, 'reread-full', N)
             except Exception as e:
@@ -223,7 +223,7 @@ def gillespie_horizon_case(draw):
 
 
 def prop_gillespie_horizon(case):
-    N = len(case['gc']['nodes'])
+    N = simrun.population(case)
     try:
         c, outs = gillespie_on_horizon(case, case['k'])
     except Exception as e:
